@@ -234,6 +234,38 @@ func readervecMain(args []string) int {
 			}
 		}
 	}
+	// inputs a little longer / shorter than 4096 * 2^k under limits a little above / below them (buffers
+	// grown in blocks): a PNG header, a JSON array and text, through every reader kind
+	bigBodies := map[string][]byte{
+		"png":  append([]byte("\x89PNG\x0d\x0a\x1a\x0a\x00\x00\x00\x0dIHDR"), bytes.Repeat([]byte{0xAB, 0x00, 0x17}, 12000)...),
+		"json": []byte("[" + strings.Repeat("12345,", 6000) + "1]"),
+		"text": bytes.Repeat([]byte("plain text line\n"), 2300),
+	}
+	for name, body := range bigBodies {
+		for _, size := range []int{4095, 4096, 4097, 4101, 8191, 8192, 8195, 16384, 16390, 32769} {
+			if size > len(body) {
+				continue
+			}
+			data := body[:size]
+			p := filepath.Join(tmp, "big")
+			os.WriteFile(p, data, 0o600)
+			for _, lim := range []int{3072, 4096, 4100, 8192, 8200, 16400, 1 << 20, 0} {
+				mimetype.SetLimit(uint32(lim))
+				want := mimetype.Detect(exact(data)).String()
+				what := fmt.Sprintf("%s of %d bytes limit %d", name, size, lim)
+				got1, err1 := mimetype.DetectReader(bytes.NewReader(data))
+				got2, err2 := mimetype.DetectFile(p)
+				got3, err3 := mimetype.DetectReader(iotest1(data))
+				n += 3
+				for i, g := range []*mimetype.MIME{got1, got2, got3} {
+					if e := []error{err1, err2, err3}[i]; e != nil || g.String() != want {
+						rep.violate(Violation{Property: "C05", Kind: "large-input-reader-differs-from-bytes", Text: what, Limit: int64(lim),
+							Detail: fmt.Sprintf("%s=%s err=%v, Detect=%s", []string{"DetectReader(bytes.Reader)", "DetectFile", "DetectReader(one byte at a time)"}[i], g, e, want), Key: fmt.Sprintf("C05|big|%s|%d", what, i)})
+					}
+				}
+			}
+		}
+	}
 	// regular files whose stat size says nothing about their content (procfs reports 0): DetectFile and
 	// DetectReader(*os.File) still see the bytes the file delivers
 	for _, p := range []string{"/proc/self/cmdline", "/proc/version", "/proc/self/environ", "/proc/cpuinfo"} {
@@ -288,6 +320,28 @@ func readervecMain(args []string) int {
 	rep.write(*out)
 	return 0
 }
+
+type oneByteReader struct {
+	d []byte
+}
+
+func (r *oneByteReader) Read(p []byte) (int, error) {
+	if len(r.d) == 0 {
+		return 0, io.EOF
+	}
+	if len(p) == 0 {
+		return 0, nil
+	}
+	k := 1
+	if len(r.d) > 700 && len(p) > 700 { // mostly chunks of 700, so that block boundaries are crossed mid-read
+		k = 700
+	}
+	copy(p, r.d[:k])
+	r.d = r.d[k:]
+	return k, nil
+}
+
+func iotest1(d []byte) io.Reader { return &oneByteReader{d: d} }
 
 // ---- trace direction
 
